@@ -1,18 +1,23 @@
-(* Whole-factory invariant for C05: in every reachable world of every configuration, on every edge,
-   both waiting queues of the edge's store are sorted by (priority, arrival number) -- so every grant
-   serves the request that is first by priority and, among equals, first come.  The stores are changed
-   only through StoreB.step, which keeps the queues sorted; lifted through all process blocks with the
-   tactic of FactoryInv.v. *)
+(* Whole-factory lifting of ANY invariant of the bound-item store that every store operation keeps
+   unconditionally: the node and edge code of a factory reaches the stores only through StoreB.step, so
+   such an invariant holds on every edge in every reachable world of every configuration.  Lifted
+   through all process blocks with the tactic of FactoryInv.v; instantiated at the end for
+   C05 (both waiting queues sorted by (priority, arrival number)) and
+   C01 (items + granted space reservations never exceed the capacity). *)
 From Coq Require Import List ZArith Lia Bool Arith.
 From RecordUpdate Require Import RecordUpdate.
 From FV Require Import ListLemmas ListLemmas2 Kernel SrcFragments Lens World Factory.
 From FV Require FactoryInv.
-From FV Require StoreB StoreBOrder.
+From FV Require StoreB StoreBInv StoreBOrder StoreBCap.
 Import ListNotations.
 Open Scope Z_scope.
 
-Notation QInv_of := StoreBOrder.QInv (only parsing).
-Definition EOK (ed : edge) : Prop := StoreBOrder.QInv (est ed).
+Section Generic.
+Variable SP : StoreB.store -> Prop.
+Hypothesis SP_step : forall s o, SP s -> SP (StoreB.step_st s o).
+Hypothesis SP_empty : SP (est edge0).
+Notation QInv_of := SP (only parsing).
+Definition EOK (ed : edge) : Prop := SP (est ed).
 Definition QE (w : world) : Prop := Forall EOK (wedges w).
 
 Create HintDb qdb.
@@ -34,7 +39,7 @@ Lemma QE_get w e : QE w -> EOK (get_edge w e).
 Proof.
   unfold QE, get_edge. intros H. destruct (nth_error (wedges w) e) as [x|] eqn:E.
   - rewrite (nth_error_nth _ _ edge0 E). eapply Forall_forall; [exact H|]. eapply nth_error_In; eauto.
-  - rewrite nth_overflow; [|apply nth_error_None; exact E]. unfold EOK, edge0. simpl. apply StoreBOrder.init_qinv.
+  - rewrite nth_overflow; [|apply nth_error_None; exact E]. unfold EOK. exact SP_empty.
 Qed.
 Lemma logw_q w x : QE w -> QE (logw w x).
 Proof. auto. Qed.
@@ -104,7 +109,7 @@ Proof. intros H. unfold e_update_level. apply upd_edge_all; auto. Qed.
 
 Lemma set_est_q w e o : QE w -> QE (upd_edge w e (fun x => x <| est := fst (fst (StoreB.step (est (get_edge w e)) o)) |>)).
 Proof.
-  intros H. apply upd_edge_at; auto. intros K. unfold EOK in *. cbn. apply (StoreBOrder.step_qinv _ o K).
+  intros H. apply upd_edge_at; auto. intros K. unfold EOK in *. cbn. apply (SP_step _ o K).
 Qed.
 
 Lemma store_op_q w e o w1 r ts : store_op w e o = (w1, r, ts) -> QE w -> QE w1.
@@ -162,14 +167,14 @@ Proof.
     assert (QE (upd_edge (upd_edge w e (fun x => x <| edptr ::= S |>)) e (fun x => x <| est := s' |>))) as H1.
     { apply upd_edge_at; auto. intros K. unfold EOK in *. cbn.
       assert (QInv_of (est (get_edge w e))) as K0 by (apply (QE_get w e H)).
-      pose proof (StoreBOrder.step_qinv _ (StoreB.Put p t i) K0) as Q. unfold StoreB.step_st in Q. rewrite ES in Q. exact Q. }
+      pose proof (SP_step _ (StoreB.Put p t i) K0) as Q. unfold StoreB.step_st in Q. rewrite ES in Q. exact Q. }
     destruct r; auto with qdb.
     destruct (spawn _ _) as [[w2 pid] d] eqn:E. apply logw_q, w_succeed_all_q.
     eapply spawn_q; [exact E|]. apply e_update_level_q. exact H1.
   - destruct (StoreB.step _ _) as [[s' r] ts] eqn:ES.
     assert (QE (upd_edge w e (fun x => x <| est := s' |>))) as H1.
     { apply upd_edge_at; auto. intros K. unfold EOK in *. cbn.
-      pose proof (StoreBOrder.step_qinv _ (StoreB.Put p t i) K) as Q. unfold StoreB.step_st in Q. rewrite ES in Q. exact Q. }
+      pose proof (SP_step _ (StoreB.Put p t i) K) as Q. unfold StoreB.step_st in Q. rewrite ES in Q. exact Q. }
     destruct r; auto 8 with qdb.
 Qed.
 #[local] Hint Resolve e_put_q : qdb.
@@ -179,7 +184,7 @@ Proof.
   unfold e_get. intros E H. destruct (StoreB.step _ _) as [[s' r0] ts] eqn:ES.
   assert (QE (upd_edge w e (fun x => x <| est := s' |>))) as H1.
   { apply upd_edge_at; auto. intros K. unfold EOK in *. cbn.
-    pose proof (StoreBOrder.step_qinv _ (StoreB.Get p t) K) as Q. unfold StoreB.step_st in Q. rewrite ES in Q. exact Q. }
+    pose proof (SP_step _ (StoreB.Get p t) K) as Q. unfold StoreB.step_st in Q. rewrite ES in Q. exact Q. }
   destruct r0 as [?| |?|e0]; try destruct e0; inversion E; subst; auto 10 with qdb.
 Qed.
 
@@ -555,13 +560,9 @@ Proof.
   apply G. exact H0.
 Qed.
 
-(* C05 at the factory level: every configuration whose edges start with sorted (e.g. empty) waiting
-   queues, every number of kernel steps: on every edge both waiting queues are sorted by
-   (priority, arrival number) *)
-Theorem queues_sorted_everywhere nodes edges order n :
+Theorem store_invariant_everywhere nodes edges order n :
   Forall EOK edges ->
-  forall i ed, nth_error (wedges (FactoryInv.iter_fstep n (mk_world nodes edges order))) i = Some ed ->
-    StoreBOrder.QInv (est ed).
+  forall i ed, nth_error (wedges (FactoryInv.iter_fstep n (mk_world nodes edges order))) i = Some ed -> SP (est ed).
 Proof.
   intros H0.
   assert (forall m w, QE w -> QE (FactoryInv.iter_fstep m w)) as G.
@@ -569,4 +570,29 @@ Proof.
     apply IH. eapply fstep_q; eauto. }
   intros i ed E. pose proof (G n _ (mk_world_q nodes edges order H0)) as K.
   eapply Forall_forall in K; [exact K|]. eapply nth_error_In; eauto.
+Qed.
+End Generic.
+
+(* C05 at the factory level: every configuration whose edges start with sorted (e.g. empty) waiting
+   queues, every number of kernel steps: on every edge both waiting queues are sorted by
+   (priority, arrival number) *)
+Theorem queues_sorted_everywhere nodes edges order n :
+  Forall (fun ed => StoreBOrder.QInv (est ed)) edges ->
+  forall i ed, nth_error (wedges (FactoryInv.iter_fstep n (mk_world nodes edges order))) i = Some ed ->
+    StoreBOrder.QInv (est ed).
+Proof.
+  apply (store_invariant_everywhere StoreBOrder.QInv StoreBOrder.step_qinv).
+  unfold edge0. simpl. apply StoreBOrder.init_qinv.
+Qed.
+
+(* C01 at the factory level: every configuration whose edges start within their capacity (e.g. empty),
+   every number of kernel steps: on every edge granted space reservations + items never exceed the
+   capacity (StoreBCap.cap_step needs no side condition on the items, so it lifts) *)
+Theorem capacity_respected_everywhere nodes edges order n :
+  Forall (fun ed => StoreBCap.CapOK (est ed)) edges ->
+  forall i ed, nth_error (wedges (FactoryInv.iter_fstep n (mk_world nodes edges order))) i = Some ed ->
+    (length (StoreB.putres (est ed)) + length (StoreB.transit (est ed)) + length (StoreB.ready (est ed)) <= StoreB.cap (est ed))%nat.
+Proof.
+  intros H i ed E.
+  apply (store_invariant_everywhere StoreBCap.CapOK StoreBCap.cap_step (StoreBCap.init_cap _ _ _) nodes edges order n H i ed E).
 Qed.
